@@ -441,7 +441,10 @@ C11Ledger(rled, post) ==
   \A k \in DOMAIN rled : \A i \in 1..3 :
     LET ld == rled[k][i] x == post.pos[k] IN
     /\ Sub("reward_upper", (ld.cr \otimes Q128) \preceq ld.hi)
-    /\ Sub("reward_lower", ld.lo \preceq (((ld.cr ++ PendingR(post, x, i)) ++ LedSlack(ld)) \otimes Q128))
+    \* (a pending amount beyond the 64-bit range - liquidity x growth delta >= 2^128 - is dropped by the program, as the
+    \* property allows: the lower bound then says nothing; the upper bound still holds)
+    /\ Sub("reward_lower", WrapMod \preceq (x.liq \otimes WSub(RewardInside(post, x, i), x.rw[i].cp))
+                            \/ ld.lo \preceq (((ld.cr ++ PendingR(post, x, i)) ++ LedSlack(ld)) \otimes Q128))
 
 -----------------------------------------------------------------------------
 (* C16: transfer-fee tokens at instruction level.  The real Token-2022 processor executes the
